@@ -246,7 +246,7 @@ func c03Run(c *Ctx) {
 		}
 	}
 	job := 0
-	for si, key := range secrets {
+	for _, key := range secrets {
 		for _, sid := range c03Sessions {
 			for _, ver := range versions {
 				job++
